@@ -26,6 +26,7 @@ for i in range(n):
         cases.append(dict(rf=rf, world=ctllib.world(nrep), events=g.history(rf, nrep, rng.randint(4, 14))))
 if len(sys.argv) > 4:
     cases = ctllib.scenarios()
+ctllib.autosync(cases)
 t = time.time()
 res, outs = ctllib.run_cases(ctx, b, cases)
 bad, cov = ctllib.parse_bad(res)
